@@ -46,6 +46,7 @@ fn main() {
     let known = arg("--known").map(|p| load_known(&p)).unwrap_or_default();
     let mut tlc_log = arg("--tlc-log").map(|p| std::fs::File::create(p).expect("tlc log"));
     let mut ctx = Ctx::new(&prop, &replay_dir, known);
+    ctx.derive = std::env::args().any(|a| a == "--derive");
     let stdin = std::io::stdin();
     let mut bad_lines = 0u64;
     for line in stdin.lock().lines() {
